@@ -25,6 +25,15 @@ func include(root map[string]any, at any, args ...any) any {
 	switch v := evalArg(root, at, args[0]).(type) {
 	case []any:
 		for _, m := range v {
+			if equalVals(m, v1) { // as eq compares: lists and maps by content, numbers by value
+				return true
+			}
+			if _, simple := m.([]any); simple {
+				continue
+			}
+			if _, simple := m.(map[string]any); simple {
+				continue
+			}
 			if m == v1 {
 				return true
 			}
